@@ -9,12 +9,18 @@ from .stage_act import tagval
 
 PARAMS = {"quick": dict(max_steps=3, sim=250, sim_depth=6), "thorough": dict(max_steps=4, sim=6000, sim_depth=8)}
 
+# ("-" / DASH and "~" / TILDE: one character read as two terminals, so that a GLR frontier holds TWO heads; one of them expects only BANG,
+# the other an operand -- scanning "!" for the second raises inside the recognizer RX after the first has found its lookahead, in one of the
+# two mirrored forms whatever the order of the heads.  Round-5 seeded change C15-g: heads sorted by lookahead survived the aborted parse.)
 GRAMMAR = '''S: E;
-E: E "+" E {left, 1} | E "*" E | "n" | BOOM | RX | "for" | ID;
+E: E "+" E {left, 1} | E "*" E | "n" | BOOM | RX | "for" | ID | E "-" BANG | E DASH E {left, 1} | E "~" E {left, 1} | E TILDE BANG;
 terminals
 BOOM: "boom";
 RX: ;
 ID: /[a-z]+/;
+BANG: "!";
+DASH: /-/;
+TILDE: /~/;
 '''
 LAYOUT = '''LAYOUT: LayoutItem | LAYOUT LayoutItem | EMPTY;
 LayoutItem: WS | Comment;
@@ -24,7 +30,8 @@ Comment: /\\/\\/.*/;
 '''
 # error examples with hints (docs/handling_errors.md): compiled into <grammar>.pgec by the first parser built from the grammar FILE, loaded by later ones
 HINTS = "n +\n:::\nAn operand is expected after an operator.\n=====\nn n\n:::+\nTwo operands in a row.\n"
-INPUTS = {"ok": "n + n * n", "bad": "n + * n + n", "act": "n + boom", "rec": "n + !", "recerr": "n ! n", "kw": "forest + for", "empty": ""}
+INPUTS = {"ok": "n + n * n", "bad": "n + * n + n", "act": "n + boom", "rec": "n + !", "recerr": "n ! n", "kw": "forest + for", "empty": "",
+          "rec2": "n - !", "rec3": "n ~ !"}
 
 
 def grammar_text(variant):
